@@ -19,7 +19,7 @@ def polStr : PadPolicy → String
   | .padTo _ => "padto"
 
 def padMonitor (c : Case) (st : St) (raw : Bytes) : Option String :=
-  if !specOK st.f st.xs then none else
+  if !gateOK c st then none else
   match parseCH raw with
   | none => none     -- reported by the C02 monitor
   | some p =>
@@ -67,7 +67,42 @@ def pad (c : Case) : Verdict :=
     | _, _, _ => ""
   check c (padMonitor c) (fun st i => padTag st i ++ same)
 
+/-! ### sequences of marshals over one padding-extension object (`pad_seq`) -/
+
+/-- the sub-case of step `k`: output keys `k.<key>`. -/
+def stepCase (c : Case) (k : Nat) : Case :=
+  let pre := s!"{k}."
+  { c with output := c.output.filterMap fun kv =>
+      if kv.1.startsWith pre then some ((kv.1.drop pre.length).toString, kv.2) else none }
+
+/-- does the policy pad at this unpadded length? (tag only) -/
+def stepClass (c : Case) : String :=
+  match parseState c with
+  | none => "x"
+  | some st =>
+    let u := unpaddedLen st.f st.xs
+    match st.pol with
+    | .boring => if 256 ≤ u ∧ u ≤ 511 then "in" else "out"
+    | .padTo n => if u < n then "in" else "out"
+    | .none => "nopol"
+
+/-- every step is checked like a `pad_*` case of its own: the model — which knows nothing of earlier
+marshals (`C05.padding_stateless`) — must predict the bytes, and the padding monitors run on them. -/
+def padSeq (c : Case) : Verdict :=
+  match c.output.nat "n" with
+  | none => pad c            -- failed before the first marshal: `err=pre:…`
+  | some n =>
+    let steps := (List.range n).map (stepCase c)
+    let tag := s!"{c.input.getD "kind" "?"},fp{c.input.getD "fp" "0"}," ++ ">".intercalate (steps.map stepClass)
+    let bad := (List.range n).findSome? fun k =>
+      match pad (stepCase c k) with
+      | .ok _ => none
+      | .diff t m => some (.diff s!"{tag},step{k}:{t}" m)
+      | .propFail t cl => some (.propFail s!"{tag},step{k}:{t}" s!"{cl}@step{k}")
+      | .bad m => some (.bad s!"step{k}: {m}")
+    bad.getD (.ok tag)
+
 def families : List (String × (Case → Verdict)) :=
-  [("pad_sweep", pad), ("pad_direct", pad), ("pad_fp", pad)]
+  [("pad_sweep", pad), ("pad_direct", pad), ("pad_fp", pad), ("pad_seq", padSeq)]
 
 end Drv.C05
